@@ -14,7 +14,7 @@ CONSTANTS MaxC, MaxR,      \* shapes explored: 0..MaxC x 0..MaxR
           Walk,            \* TRUE: random-walk mode (tlc -simulate), cases printed at depth WalkLen
           WalkLen,
           EmitOps,         \* only transitions whose call is in this set are printed ({} = all)
-          Faults           \* subset of {"iter", "clone", "default", "drop", "cmp", "forget"}: fault transitions explored
+          Faults           \* subset of {"iter", "clone", "default", "drop", "closure", "cmp", "forget"}: fault transitions explored
 
 VARIABLES phase, grid, handle, held, nextId, hist
 vars == <<phase, grid, handle, held, nextId, hist>>
@@ -158,6 +158,10 @@ FDrop == /\ "drop" \in Faults
             \/ \E k \in 0..Cells : DoFault("fill", [v |-> nextId], PanicAt("drop", k), <<nextId>>, 1)
             \/ Cells > 0 /\ DoFault("set", [c |-> 0, r |-> 0, v |-> nextId], PanicAt("drop", 0), <<nextId>>, 1)
             \/ handle.kind # "none" /\ \E k \in 0..(Len(handle.items) - handle.f - handle.b) : DoFault("d_drop", NoArg, PanicAt("drop", k), << >>, 0)
+\* the closure given to fold / rfold on a drain panics at its k-th call (the drain has been moved into the call)
+FClosure == /\ "closure" \in Faults /\ handle.kind # "none"
+            /\ \E op \in {"d_fold", "d_rfold"}, k \in 0..(Len(handle.items) - handle.f - handle.b) :
+                  DoFault(op, NoArg, PanicAt("closure", k), << >>, 0)
 \* the comparator panics at its k-th call
 FCmp == /\ "cmp" \in Faults
         /\ \/ \E r \in 0..(R - 1), k \in 0..(2 * C) : DoFault("sort_by_row", [row |-> r], PanicAt("cmp", k), << >>, 0)
@@ -170,7 +174,7 @@ ALeakBorrow == /\ "forget" \in Faults
                /\ \E what \in {"rows", "rows_mut", "col", "col_mut", "cells", "cells_mut", "view", "view_mut"}, taken \in {0, 1, 2} :
                     Do("leak_borrow", [what |-> what, taken |-> taken], 0)
 
-FaultNext == FIter \/ FClone \/ FCloneInto \/ FKey \/ FDefault \/ FDrop \/ FCmp \/ FForget \/ ALeakBorrow
+FaultNext == FIter \/ FClone \/ FCloneInto \/ FKey \/ FDefault \/ FDrop \/ FClosure \/ FCmp \/ FForget \/ ALeakBorrow
 
 Init == /\ phase = "none" /\ grid = << >> /\ handle = NoHandle /\ held = << >>
         /\ nextId = 1 /\ hist = << >>
